@@ -120,6 +120,32 @@ let () =
          let mn = of_bits (z_of_hex mn) and mx = of_bits (z_of_hex mx) and v = n_of_hex v in
          Printf.printf "%d %s %d " (int_of_z (uniform_int mn mx v)) (hex_of_z (bits_of (uniform_value mn mx v)))
            (int_of_z (uniform_int_raw mn mx v))
+     | "HG" :: seed :: mean :: sd :: ops ->
+         let fbits h = Int64.float_of_bits (Int64.of_string ("0x" ^ h)) in
+         let cnt = List.fold_left (fun a op -> a + (match op.[0] with 'g' -> 1 | 'f' -> int_of_string (String.sub op 1 (String.length op - 1)) | _ -> 0)) 0 ops in
+         let units sd = let (l, _) = raws (set_seed (seed_of_int sd)) (8 * cnt + 64) in List.map (fun v -> float_of_b64 (res53 v)) l in
+         let rec rep n x = if n <= 0 then [] else x :: rep (n - 1) x in
+         let gops = List.concat_map (fun op ->
+           let arg = String.sub op 1 (String.length op - 1) in
+           match op.[0] with
+           | 'g' -> [GGet] | 'f' -> rep (int_of_string arg) GGet
+           | 'm' -> [GSetMean (fbits arg)] | 'x' -> [GSetSd (fbits arg)]
+           | 's' -> [GSetSeed (units (int_of_string arg))] | _ -> []) ops in
+         let o = { go_mean = fbits mean; go_sd = fbits sd; go_cache = None; go_us = units (int_of_string seed) } in
+         List.iter (fun r -> match r with
+                     | Some g -> print_string (hex_of_float g.o_val); print_char ' '
+                     | None -> print_string "nofuel ") (grun fl (nat_of_int 64) o gops)
+     | "HU" :: seed :: mn :: mx :: ops ->
+         let rec rep n x = if n <= 0 then [] else x :: rep (n - 1) x in
+         let uops = List.concat_map (fun op ->
+           let arg = String.sub op 1 (String.length op - 1) in
+           match op.[0] with
+           | 'g' -> [UGet] | 'i' -> [UGetInt] | 'f' -> rep (int_of_string arg) UGet
+           | 'm' -> [USetMin (of_bits (z_of_hex arg))] | 'x' -> [USetMax (of_bits (z_of_hex arg))]
+           | 's' -> [USetSeed (seed_of_int (int_of_string arg))] | _ -> []) ops in
+         let (outs, _) = urun (unew (of_bits (z_of_hex mn)) (of_bits (z_of_hex mx)) (seed_of_int (int_of_string seed))) uops in
+         List.iter (fun r -> if r.uo_is_int then Printf.printf "i%d " (int_of_z (floorZ r.uo_val))
+                             else (print_string (hex_of_z (bits_of r.uo_val)); print_char ' ')) outs
      | ["RAWAT"; seed; idx] ->   (* the raw 64-bit value and unit value of draw number idx (1-based) *)
          let (l, _) = raws (set_seed (seed_of_int (int_of_string seed))) (int_of_string idx) in
          let v = List.nth l (int_of_string idx - 1) in
